@@ -20,6 +20,13 @@ func vc11(c tmplCfg, module bool) {
 	g := tGenome("g", 3, c)
 	if module {
 		c06AddModule(g)
+		if vChoice("second module sharing the input and output nodes", 2) == 1 {
+			ctrl := network.NewNNode(21, network.HiddenNeuron)
+			ctrl.ActivationType = neatmath.MaxModuleActivation
+			ctrl.AddIncoming(g.Nodes[0], 1.0)
+			ctrl.AddOutgoing(g.Nodes[2], 1.0)
+			g.ControlGenes = append(g.ControlGenes, NewMIMOGene(ctrl, 900, 0.5, vBool("module2.enabled")))
+		}
 	}
 	net, err := g.Genesis(5)
 	vAssert(err == nil, "C11: a well-formed genome is expressed without error")
@@ -136,7 +143,8 @@ func vc11(c tmplCfg, module bool) {
 
 	// ---- graph view, for ALL ordered pairs of ids (solver-quantified, incl. absent ones) ----
 	u, v := vInt("u"), vInt("v")
-	vAssume(vAnd(vAnd(u >= 0, u <= 25), vAnd(v >= 0, v <= 25)))
+	vAssume(vAnd(vAnd(u >= 0, u <= 22), vAnd(v >= 0, v <= 22)))
+	vAssume(vAnd(vOr(u <= 6, u >= 19), vOr(v <= 6, v >= 19))) // ids 7..18 are all absent and behave like 6 and 19
 	uid, vid := int64(vConcrete(u)), int64(vConcrete(v))
 	present := func(id int64) bool {
 		for _, p := range net.AllNodes() {
@@ -261,6 +269,11 @@ var _ = neatmath.NullActivation
 func VC11_Genesis_Quick() {
 	vc11(tmplCfg{outputs: 2, hidden: 1, genes: 3, traits: 1, params: 1, symRecur: true, symEnable: true,
 		links: [][2]int{{0, 2}, {1, 4}, {4, 4}}}, false)
+}
+func VC11_SamePair_Quick() {
+	// two genes joining the same ordered pair, differing in the recurrence flag (genetically distinct)
+	vc11(tmplCfg{outputs: 1, hidden: 1, genes: 3, traits: 1, params: 1, symRecur: true, symEnable: true,
+		links: [][2]int{{0, 3}, {3, 2}, {3, 2}}}, false)
 }
 func VC11_Module_Quick() {
 	vc11(tmplCfg{outputs: 1, hidden: 0, genes: 2, traits: 1, params: 1, symRecur: false, symEnable: true, fixedBase: true}, true)
